@@ -1,7 +1,9 @@
 /-
-  DDProps.C14 — declaring (and undeclaring) variables keeps a valid order and all functions.
+  DDProps.C14 — declaring and undeclaring variables keeps a valid order and all functions.
 -/
 import DDProofs.VarsProofs
+import DDProofs.Undeclare
+import DDProofs.UndeclareExample
 namespace DD
 
 /-- C14: a new name gets the next bottom level; the manager invariant, every node, every
@@ -39,19 +41,111 @@ theorem C14_views_agree (t : Tbl) (h : OrderOK t) :
     (∀ (i : Nat), i < t.nvars → ∃ v : String, t.l2v[i]? = some v ∧ t.vars[v]? = some i) :=
   h.views
 
-/-- C14, removal (FULL STATEMENT, not yet proved in Lean — decided by correspondence only):
-`undeclare_vars` removes exactly the requested unused variables (all unused ones when none is
-named), refuses used or unknown ones leaving the state as it was, compacts levels keeping the
-relative order, and keeps the invariant and every function. -/
-def C14_undeclare_statement : Prop :=
-  ∀ (m : Mgr) (vrs : List String), Inv m → OrderOK m.tbl →
+/-! ### removal -/
+
+/-- C14, removal, refusals: a name that is not declared, or a variable whose level still carries a
+node, makes `undeclare_vars` raise `ValueError`, and the manager is exactly as it was -/
+theorem C14_undeclare_refuses (m : Mgr) (vrs : List String)
+    (h : ∃ v ∈ vrs, m.tbl.vars[v]? = none ∨
+      ∃ l, m.tbl.vars[v]? = some l ∧ m.tbl.LevelHasNode l) :
+    undeclareVars vrs m = (.error .value, m) :=
+  undeclare_refuses m vrs h
+
+/-- non-vacuity: an unknown name; a used variable (`a` carries node 3 in the example manager) -/
+example : undeclareVars ["b", "z"] undeclExM = (.error .value, undeclExM) :=
+  C14_undeclare_refuses _ _ ⟨"z", by simp, Or.inl (by decide)⟩
+example : undeclareVars ["b", "a"] undeclExM = (.error .value, undeclExM) :=
+  C14_undeclare_refuses _ _ ⟨"a", by simp, Or.inr undeclExM_a⟩
+
+/-- C14, removal, success: when every named variable is declared and at a level without nodes
+(no name: always), the call succeeds and
+* removes exactly the named variables — with no name given, exactly the variables whose level
+  carries no node (`rm` has no duplicates, all its names were declared);
+* keeps every other variable, at the level `f l` where `f` compacts the kept levels;
+* `vars` / `_level_to_var` again are inverse bijections onto `0..n'-1`;
+* the kept variables keep their relative order;
+* the manager invariant holds again (reduced, ordered, unique table; `_pred` in sync with `_succ`;
+  empty computed table);
+* node numbers and children are unchanged, levels are relabeled by `f`, strictly increasing on
+  the levels in use (`Relabel`);
+* every reference keeps its function BY NAME (`denN`);
+* reference counts, the free-number hint and the roots are untouched. -/
+theorem C14_undeclare_spec (m : Mgr) (hI : Inv m) (hO : OrderOK m.tbl) (vrs : List String)
+    (hvrs : ∀ v ∈ vrs, ∃ l, m.tbl.vars[v]? = some l ∧ ¬ m.tbl.LevelHasNode l) :
+    ∃ (rm : List String) (m' : Mgr) (f : Nat → Nat),
+      undeclareVars vrs m = (.ok rm, m') ∧
+      (∀ v, v ∈ rm ↔
+        if vrs = [] then (∃ l, m.tbl.vars[v]? = some l ∧ ¬ m.tbl.LevelHasNode l) else v ∈ vrs) ∧
+      (∀ v ∈ rm, m.tbl.vars.contains v = true) ∧ rm.Nodup ∧
+      (∀ (v : String) (j : Nat), m'.tbl.vars[v]? = some j ↔
+        ∃ l, m.tbl.vars[v]? = some l ∧ v ∉ rm ∧ j = f l) ∧
+      OrderOK m'.tbl ∧
+      (∀ (v w : String) (i j i' j' : Nat), m.tbl.vars[v]? = some i → m.tbl.vars[w]? = some j →
+        m'.tbl.vars[v]? = some i' → m'.tbl.vars[w]? = some j' → (i < j ↔ i' < j')) ∧
+      Inv m' ∧
+      Relabel m.tbl m'.tbl f ∧
+      (∀ u, m.tbl.Mem u → m'.tbl.Mem u ∧ ∀ σ, denN m'.tbl u σ = denN m.tbl u σ) ∧
+      m'.ref = m.ref ∧ m'.minFree = m.minFree ∧ m'.cache.isEmpty = true ∧ m'.roots = m.roots :=
+  undeclare_spec m hI hO vrs hvrs
+
+/-- non-vacuity: the example manager (variables a, b, c; nodes 2 = `c`, 3 = `a ∧ c`; no node at
+the level of `b`) meets the hypotheses, with `b` named and with no name given -/
+example : Inv undeclExM ∧ OrderOK undeclExM.tbl ∧
+    (∀ v ∈ ["b"], ∃ l, undeclExM.tbl.vars[v]? = some l ∧ ¬ undeclExM.tbl.LevelHasNode l) ∧
+    (∀ v ∈ ([] : List String), ∃ l, undeclExM.tbl.vars[v]? = some l ∧ ¬ undeclExM.tbl.LevelHasNode l) :=
+  ⟨undeclExM_ok.1, undeclExM_ok.2, undeclExM_b, by simp⟩
+/-- ... and the call then does remove `b` and moves `c` from level 2 to level 1 -/
+example : (undeclareVars ["b"] undeclExM).1.toOption = some ["b"] ∧
+    (undeclareVars ["b"] undeclExM).2.tbl.vars["c"]? = some 1 ∧
+    (undeclareVars [] undeclExM).1.toOption = some ["b"] := by
+  refine ⟨by decide, ?_, by decide⟩
+  rw [undeclare_ok undeclExM undeclExM_ok.1.wf.toWF undeclExM_ok.2 ["b"] undeclExM_b]
+  exact (undeclState_vars _ _ undeclExM_ok.2 "c" 1).mpr ⟨2, by decide, by decide, by decide⟩
+
+/-- C14, removal (the full statement): for EVERY manager satisfying the invariant with a valid
+order and EVERY list of names, `undeclare_vars` either succeeds — the invariant and the bijection
+hold again, the removed names are exactly the variables that were declared and no longer are, the
+kept variables keep their relative order, every reference keeps its function by name — or raises
+`ValueError` leaving the manager exactly as it was. -/
+theorem C14_undeclare (m : Mgr) (vrs : List String) (hI : Inv m) (hO : OrderOK m.tbl) :
     match undeclareVars vrs m with
     | (.ok removed, m') =>
       Inv m' ∧ OrderOK m'.tbl ∧
       (∀ v, v ∈ removed ↔ (m.tbl.vars.contains v ∧ ¬ m'.tbl.vars.contains v)) ∧
       (∀ (v w : String) (i j i' j' : Nat), m.tbl.vars[v]? = some i → m.tbl.vars[w]? = some j →
-        m'.tbl.vars[v]? = some i' → m'.tbl.vars[w]? = some j' → (i < j ↔ i' < j'))
-    | (.error _, m') => m'.tbl.vars = m.tbl.vars ∧ m'.tbl.succ = m.tbl.succ
+        m'.tbl.vars[v]? = some i' → m'.tbl.vars[w]? = some j' → (i < j ↔ i' < j')) ∧
+      (∀ u, m.tbl.Mem u → m'.tbl.Mem u ∧ ∀ σ, denN m'.tbl u σ = denN m.tbl u σ)
+    | (.error e, m') => e = .value ∧ m' = m := by
+  rcases undeclare_cases m vrs with h | h
+  · rw [undeclare_refuses m vrs h]
+    exact ⟨rfl, rfl⟩
+  · obtain ⟨rm, m', f, hrun, _, hdecl, _, hvars, hO', hord, hI', _, hden, _⟩ :=
+      undeclare_spec m hI hO vrs h
+    rw [hrun]
+    refine ⟨hI', hO', ?_, hord, hden⟩
+    intro v
+    constructor
+    · intro hv
+      refine ⟨hdecl v hv, ?_⟩
+      rw [Std.TreeMap.contains_eq_isSome_getElem?]
+      cases hc : m'.tbl.vars[v]? with
+      | none => simp
+      | some j =>
+        obtain ⟨_, _, hn, _⟩ := (hvars v j).mp hc
+        exact absurd hv hn
+    · rintro ⟨h1, h2⟩
+      rw [Std.TreeMap.contains_eq_isSome_getElem?] at h1 h2
+      obtain ⟨l, hl⟩ := Option.isSome_iff_exists.mp h1
+      by_cases hv : v ∈ rm
+      · exact hv
+      · exact absurd (by rw [(hvars v (f l)).mpr ⟨l, hl, hv, rfl⟩]; rfl) h2
+
+/-- non-vacuity: both branches of `C14_undeclare` occur on the example manager -/
+example : Inv undeclExM ∧ OrderOK undeclExM.tbl ∧
+    (undeclareVars ["b"] undeclExM).1.toOption = some ["b"] ∧
+    undeclareVars ["a"] undeclExM = (.error .value, undeclExM) :=
+  ⟨undeclExM_ok.1, undeclExM_ok.2, by decide,
+   C14_undeclare_refuses _ _ ⟨"a", by simp, Or.inr undeclExM_a⟩⟩
 
 /-- non-vacuity: the empty manager has a valid (empty) order and satisfies the invariant -/
 example : Inv ({} : Mgr) ∧ OrderOK ({} : Mgr).tbl := ⟨Inv.init, OrderOK.empty⟩
